@@ -145,8 +145,22 @@ def main(argv):
             if r['status'] == 'missed':
                 print('    exit=%s detail: %s' % (r.get('exit'), (r.get('detail') or '')[-400:].replace('\n', ' | ')))
         return 0
+    merge = None
+    if argv and argv[0] == '--merge':
+        # tools/selftest.sh --merge revert-C02-8a37c27,seed-C01a : run these entries only and replace / append their
+        # rows in RESULTS.{json,md} of the last full run (entries added after that run)
+        from concurrent.futures import ThreadPoolExecutor
+        names = set(argv[1].split(','))
+        es = [e for e in corpus() if e['name'] in names]
+        repo_diff(dict(os.environ))
+        with ThreadPoolExecutor(max_workers=4) as ex:
+            new = list(ex.map(lambda e: run_entry(e, max(2, 16 // max(1, min(4, len(es))))), es))
+        old = json.load(open(os.path.join(VERIF, 'selftest', 'RESULTS.json')))
+        byname = {r['name']: r for r in new}
+        merge = [byname.pop(r['name'], r) for r in old] + [r for r in new if r['name'] in byname]
+        argv = []
     pid = argv[0] if argv else None
-    rs = run(pid)
+    rs = merge if merge is not None else run(pid)
     ok = True
     lines = ['| entry | property | kind | status | failed obligations (first 4) | replayed |', '|---|---|---|---|---|---|']
     for r in rs:
